@@ -71,6 +71,7 @@ def run(ctx):
     R6 = rep.rule('C07.R6', 'the closures of AssetReadGuard::map / try_map are higher-ranked over the borrow: the mapped reference cannot escape the guard', floor=2)
     S1 = rep.rule('C08.R2', 'hot_reload waits until *its* answer is there: every raw Condvar::wait sits in the predicate loop of utils::private::Condvar::wait_while, for both lock back ends (shared with C08, wait clauses only)', floor=2)
     S2 = rep.rule('C08.R4', 'hot_reload waits for the answer to *its own* request: unique tokens, the wait follows a successful send on the token just sent, and the waiter\'s predicate is `slot != Some(my token)` (shared with C08)', floor=4)
+    R7 = rep.rule('C07.R7', 'the reference a read guard carries is used only through the guard: nobody copies `AssetReadGuard.value` out (it has the lifetime of the handle, not of the guard, so the borrow checker does not object)', floor=2)
     rep.assumptions += ['user code does not hold an AssetReadGuard across hot_reload (documented precondition of the crate)']
     for cfg, F in ctx.cfgs():
         hr = 'hot-reloading' in ctx.cfg_features[cfg]
@@ -87,6 +88,8 @@ def run(ctx):
         R1.finish_cfg(cfg)
         r6(R6, cfg, F)
         R6.finish_cfg(cfg)
+        r7(R7, cfg, F)
+        R7.finish_cfg(cfg)
 
 
 def read_guard_call(F, b):
@@ -417,6 +420,35 @@ def r5(R5, cfg, F):
         a = common.deep_path(th, nt[0].args[1], at=nt[0].bb)
         ok = ok and bool(a) and 'as:Ptr' in a
     R5.check(ok, cfg, th.path, 'answers-after-update_if_local', 'the reloader must answer the token of the Ptr message after update_if_local returned', ul[0].loc() if ul else th.loc())
+
+
+def r7(R7, cfg, F):
+    """AssetReadGuard { value: &'a T, guard } -- `value` outlives the guard as far as the type system knows.  Reading the field
+    is the guard's own business (Deref, map / try_map, Debug ..); any other function that projects it can keep the
+    reference after the lock is released (`let v: &T = handle.read().value; v.clone()` reads without the lock)."""
+    n = 0
+    for b in F.fn_bodies():
+        own = bool(re.search(r"(^|<)entry::AssetReadGuard<", b.path) or b.path.startswith("entry::AssetReadGuard::"))
+        for bb, j, st in b.assigns():
+            rv = st['rv']
+            places = []
+            if rv['k'] in ('use',) and rv['op'].get('k') in ('copy', 'move'):
+                places.append(rv['op']['place'])
+            elif rv['k'] in ('ref', 'rawptr', 'discr'):
+                places.append(rv['place'])
+            for pl in places:
+                for e in pl['p']:
+                    if isinstance(e, dict) and e.get('n') == 'value' and e.get('of') == 'entry::AssetReadGuard':
+                        n += 1
+                        R7.check(own, cfg, b.path, 'guard.value-read-only-by-the-guard', '`%s` reads the `value` field of an AssetReadGuard: the reference can be used after the guard (and its read lock) is gone' % b.path,
+                                 '%s:%s' % (b.file, st.get('line')))
+        for c in b.calls():
+            for a in c.args:
+                if a.get('k') in ('copy', 'move') and any(isinstance(e, dict) and e.get('n') == 'value' and e.get('of') == 'entry::AssetReadGuard' for e in a['place']['p']):
+                    n += 1
+                    R7.check(own, cfg, b.path, 'guard.value-read-only-by-the-guard', '`%s` passes the `value` field of an AssetReadGuard on: the reference can be used after the guard is gone' % b.path, c.loc())
+    if n == 0:
+        R7.missing(cfg, 'reads of AssetReadGuard.value (Deref, map)')
 
 
 def r6(R6, cfg, F):
